@@ -316,7 +316,12 @@ class Ctx:
                 return True
             if cb.id == "bwbin::repository_root_path":
                 return True
-            return any(factsmod.callee_matches(t, r"^std::process::(exit|abort)$") for _, t in cb.calls())
+            # the report function: the one that is handed the diagnostics map (where `process::exit` is called -
+            # there or by its caller on its verdict - is for C11.exit to decide)
+            if any("std::collections::HashMap<std::path::PathBuf, std::vec::Vec<blockwatch::validators::Violation>>" in cb.local_ty(i) for i in range(1, cb.argc + 1)):
+                return True
+            return any(factsmod.callee_matches(t, r"^std::process::(exit|abort)$") for _, t in cb.calls()) and \
+                not any(factsmod.callee_matches(t, r"validators::(detect_validators|run)$") for _, t in cb.calls())
         return self.inl(main, skip=keep, tag="main")
 
     def validate_body(self, name, inline=False, skip=None, tag=None, sugar=False):
